@@ -50,6 +50,9 @@ def run(ctx):
     rule_run(ctx, F)
     rule_width(ctx, F)
     rule_err(ctx, F)
+    rule_fudge(ctx, F)
+    rule_canon(ctx, F)
+    rule_chain(ctx, F)
 
 
 def _calls(b, rx):
@@ -439,3 +442,157 @@ def _ops(rv):
     if k == "agg":
         return list(rv[2])
     return []
+
+
+# ---------------------------------------------------------------------------
+# the time window is two-sided
+# ---------------------------------------------------------------------------
+
+def _lin3(t):
+    """term over (self.0, other.0, fudge) -> {S,O,F,1: coef} (saturating/wrapping/checked arithmetic read as exact)"""
+    t = deep_strip(t)
+    cv = const_value(t)
+    if cv is not None:
+        return {1: cv}
+    if t[0] == "cast":
+        return _lin3(t[2])
+    if t[0] == "arg":
+        return {"F": 1} if t[1] == 3 else None
+    if t[0] == "field" and deep_strip(t[1])[0] == "arg" and str(t[2]) == "0":
+        return {{1: "S", 2: "O"}.get(deep_strip(t[1])[1], "?"): 1}
+    op = None
+    a = b = None
+    if t[0] == "bin" and t[1] in ("Add", "Sub", "AddWithOverflow", "SubWithOverflow"):
+        op, a, b = ("+" if t[1].startswith("Add") else "-"), t[2], t[3]
+    elif t[0] == "call" and t[1] and len(t[3]) == 2:
+        m = re.search(r"::(saturating|wrapping|checked)_(add|sub)$", t[1])
+        if m:
+            op, a, b = ("+" if m.group(2) == "add" else "-"), t[3][0], t[3][1]
+    if op is None:
+        return None
+    la, lb = _lin3(a), _lin3(b)
+    if la is None or lb is None:
+        return None
+    out = dict(la)
+    for k, v in lb.items():
+        out[k] = out.get(k, 0) + (v if op == "+" else -v)
+    return out
+
+
+def rule_fudge(ctx, F):
+    """Time48::eq_fudged(self, other, fudge) is true only if
+    self - fudge <= other  and  other <= self + fudge."""
+    R = "C11.fudge"
+    ctx.floor(R, 2)
+    b = F.one_body(r"^rdata::tsig::Time48::eq_fudged$")
+    if not ctx.anchor(R, "Time48::eq_fudged", b):
+        return
+    # conditions under which the result is true
+    results = []
+    for bi in sorted(b.reachable_blocks()):
+        for st in b.blocks[bi]["s"]:
+            if st[0] == "=" and st[1] == [0]:
+                rv = deep_strip(b.term_of_rvalue(st[2]))
+                cv = const_value(rv)
+                conds = [(deep_strip(tt), vv) for tt, vv in bool_facts(b, bi, F)]
+                if cv in (0, False):
+                    continue
+                if cv is None:
+                    conds.append((rv, True))
+                results.append((bi, conds))
+    ctx.anchor(R, "true result of eq_fudged", bool(results), b.where())
+    for bi, conds in results:
+        lower = upper = False
+        for tt, vv in conds:
+            if tt[0] != "bin" or tt[1] not in ("Lt", "Le", "Gt", "Ge"):
+                continue
+            la, lb = _lin3(tt[2]), _lin3(tt[3])
+            if la is None or lb is None:
+                continue
+            # a OP b is vv  ->  d = a - b ; normalise to d <= 0 or d >= 0
+            d = dict(la)
+            for k, v in lb.items():
+                d[k] = d.get(k, 0) - v
+            le = (tt[1] in ("Lt", "Le")) == bool(vv)   # d <= 0 (or < 0)
+            if not le:
+                d = {k: -v for k, v in d.items()}
+            # now d <= 0 ; d = cS*S + cO*O + cF*F
+            s_, o_, f_ = d.get("S", 0), d.get("O", 0), d.get("F", 0)
+            if d.get("?") or d.get(1, 0) not in (0,):
+                continue   # other symbols / constant slack: not the plain window bound
+            if s_ == 1 and o_ == -1 and f_ == -1:
+                lower = True      # self - fudge - other <= 0
+            if s_ == -1 and o_ == 1 and f_ == -1:
+                upper = True      # other - self - fudge <= 0
+        ctx.ob(R, b, "not older than fudge (self - fudge <= other)", lower,
+               "Time48::eq_fudged can return true without self - fudge <= other: a signature arbitrarily far on that "
+               "side of the clock is accepted (RFC 8945 5.2.3)", b.where(bi))
+        ctx.ob(R, b, "not newer than fudge (other <= self + fudge)", upper,
+               "Time48::eq_fudged can return true without other <= self + fudge", b.where(bi))
+    # and the verification paths use it with the received fudge
+    users = F.callers_of(r"^rdata::tsig::Time48::eq_fudged$")
+    ctx.ob(R, "rdata::tsig::Time48::eq_fudged", "used by the TSIG time check", any("tsig::" in cb.path for cb, _, _ in users),
+           "no TSIG verification path calls Time48::eq_fudged any more")
+
+
+# ---------------------------------------------------------------------------
+# names enter the digest in canonical form
+# ---------------------------------------------------------------------------
+
+def rule_canon(ctx, F):
+    """RFC 8945 4.3.3: the key name is digested in canonical wire format
+    (lower-cased).  Key lookup compares names case-insensitively, so a key
+    name fed as stored gives a different MAC on a peer that spells it
+    differently."""
+    R = "C11.canon"
+    ctx.floor(R, 1)
+    b = F.one_body(r"^tsig::Variables::sign$")
+    if not ctx.anchor(R, "Variables::sign", b):
+        return
+    n = 0
+    for bb, t in b.calls():
+        if not (t["fn"] or "").endswith("hmac::Context::update"):
+            continue
+        raw = b.term_of_operand(t["args"][1])
+        names = [s for s in walk(raw) if s[0] == "field" and s[2] == "name"]
+        if not names:
+            continue
+        n += 1
+        canon = any(s[0] == "call" and s[1] and re.search(r"::(to_canonical|compose_canonical|to_canonical_name|make_canonical)$", s[1])
+                    for s in walk(raw)) or any(s[0] == "k" and len(s) > 3 and isinstance(s[3], str) and
+                                               re.search(r"(to_canonical|compose_canonical)", s[3]) for s in walk(raw))
+        ctx.ob(R, b, "key name digested in canonical form#%d" % n, canon,
+               "Variables::sign feeds the key name to the MAC without lower-casing it (no to_canonical / "
+               "compose_canonical on the way): the MAC differs from the RFC 8945 computation for key names with "
+               "upper-case letters", b.where(bb))
+    ctx.anchor(R, "digest input derived from key.name in Variables::sign", n >= 1, b.where())
+
+
+# ---------------------------------------------------------------------------
+# the MAC chained into the next digest is the MAC as it is on the wire
+# ---------------------------------------------------------------------------
+
+def rule_chain(ctx, F):
+    """RFC 8945 4.3.1/5.3.1: the prior MAC enters the next digest exactly as
+    transmitted.  With a truncating key the signer must therefore chain the
+    truncated MAC (Key::signature_slice), as the verifier chains the MAC
+    field it received."""
+    R = "C11.chain"
+    ctx.floor(R, 5)
+    n = 0
+    seen = {}
+    for cb, bb, t in F.callers_of(r"^tsig::SigningContext::<K>::apply_signature$"):
+        if "::test" in cb.path:
+            continue
+        n += 1
+        a = cb.term_of_operand(t["args"][1])
+        calls = [s[1] for s in walk(a) if s[0] == "call" and s[1]]
+        wire = any(c.endswith("Tsig::<O, N>::mac") or re.search(r"rdata::tsig::Tsig::<.*>::mac$", c) for c in calls)
+        cut = any(c.endswith("Key::signature_slice") for c in calls)
+        seen[cb.path] = seen.get(cb.path, 0) + 1
+        ctx.ob(R, cb, "chained MAC is the transmitted MAC#%d" % seen[cb.path], wire or cut,
+               "%s chains a MAC into the running digest that is neither the received MAC field nor "
+               "Key::signature_slice(..) of the computed tag: with a truncating key (signing_len below the native "
+               "length) signer and verifier digest different octets and every later message of the sequence "
+               "fails with BADSIG" % cb.path.split("::")[-2:], cb.where(bb))
+    ctx.call_sites += n
